@@ -44,10 +44,12 @@ MCAppend(n, big, de, dx) ==
      /\ Step([a |-> "Append", recs |-> recs])
      /\ nRecs' = nRecs + n
 
-MCAppendSet(n, big, de) ==
+\* g > 0: a replica that joins late - the first replicated set of an empty log starts above 0
+MCAppendSet(n, big, de, g) ==
   /\ nRecs + n <= MaxRecs
   /\ CurEpoch + de <= MaxEpoch
-  /\ LET recs == WithOff(Batch(n, big, CurEpoch + de, -1), NextOff) IN
+  /\ g > 0 => (log = <<>> /\ hw = -1)
+  /\ LET recs == WithOff(Batch(n, big, CurEpoch + de, -1), NextOff + g) IN
      /\ DoAppendSet(recs)
      /\ Step([a |-> "AppendSet", recs |-> recs])
      /\ nRecs' = nRecs + n
@@ -72,9 +74,9 @@ MCTail(r) == UseReaders /\ DoDrain(r) /\ Step([a |-> "Tail", r |-> r]) /\ UNCHAN
 
 MCNext ==
   \/ \E n \in 1..MaxBatch, big \in BOOLEAN, de \in 0..1, dx \in {-1, 0, 1, 9, 92, 93} : MCAppend(n, big, de, dx)
-  \/ \E n \in 1..MaxBatch, big \in BOOLEAN, de \in 0..1 : MCAppendSet(n, big, de)
+  \/ \E n \in 1..MaxBatch, big \in BOOLEAN, de \in 0..1, g \in {0, 2} : MCAppendSet(n, big, de, g)
   \/ \E o \in 0..(Newest + 1) : o > hw /\ MCTruncate(o)
-  \/ \E h \in (hw + 1)..Newest : MCSetHW(h)
+  \/ \E h \in (hw + 1)..Newest : h >= Oldest /\ MCSetHW(h)
   \/ MCNewLeaderEpoch
   \/ \E b \in BOOLEAN : MCSetReadonly(b)
   \/ MCReopen
